@@ -5,10 +5,10 @@ import ast
 import binascii
 
 from ..core import rule
-from ..errors import AnalysisError
+from ..errors import AnalysisError, FormNotRecognised
 from ..idx import index
 from ..px import OK, PX, RAISE, Outcomes
-from ..pxv import Obj, Sym
+from ..pxv import Exc, Obj, Sym
 from ..te import ClassRef, FuncRef, Member, TypeRef
 from .ash_link import ASH, ash_cls, dispatch_classes, frame_obj, inline_ash, upward
 from .util import anchor_attrs
@@ -515,28 +515,60 @@ def r02_1(ctx):
     repo = ctx.repo
     f = repo.func(RECV)
     ctx.fn(f)
-    # (a)
-    sites = [n for n in ast.walk(f.node) if isinstance(n, ast.Call) and text(n.func) in ("self._unstuff_bytes", "parse_frame")]
-    ctx.anchor(len(sites) >= 2, "data_received calls _unstuff_bytes and parse_frame")
+    # (a) the parsing calls, in data_received or in the same-class helpers it is split into
+    reach, work = {}, [f]
+    while work:
+        g = work.pop()
+        if g.qual in reach:
+            continue
+        reach[g.qual] = g
+        for n in ast.walk(g.node):
+            if isinstance(n, ast.Call) and isinstance(n.func, ast.Attribute) and text(n.func.value) == "self" and n.func.attr not in ("frame_received", "_write_frame"):
+                try:
+                    h = f.cls.method(n.func.attr)
+                except KeyError:
+                    continue
+                work.append(h)
+    sites = [(g, n) for g in reach.values() for n in ast.walk(g.node) if isinstance(n, ast.Call) and text(n.func) in ("self._unstuff_bytes", "parse_frame")
+             and g.name not in ("_unstuff_bytes",)]
+    ctx.anchor(len(sites) >= 2, "data_received (or its helpers) calls _unstuff_bytes and parse_frame")
     esc = Escapes(repo, dead=_dead_else_raises(ctx))
-    for s in sites:
+
+    def protected(g, node, depth=0):
+        """The call is inside a try (in its own function) whose handler catches Exception without re-raising, or every call
+        of its function from the receive path is."""
+        encl_ = [(t, part) for t, part in enclosing_try(g.node, node) if part == "body"]
+        if any(handler_contains_all(t) for t, _ in encl_):
+            return True, encl_
+        if g.qual == f.qual or depth > 4:
+            return False, encl_
+        callers = [(h, n) for h in reach.values() for n in ast.walk(h.node)
+                   if isinstance(n, ast.Call) and isinstance(n.func, ast.Attribute) and text(n.func.value) == "self" and n.func.attr == g.name]
+        if not callers:
+            return False, encl_
+        res = [protected(h, n, depth + 1) for h, n in callers]
+        return all(r[0] for r in res), [e for r in res for e in r[1]]
+
+    for g, s_ in sites:
         ctx.call_sites += 1
-        encl = [(t, part) for t, part in enclosing_try(f.node, s) if part == "body"]
-        ok = any(handler_contains_all(t) for t, _ in encl)
-        ctx.require(ok, f"parse-site:{text(s.func)}", f"{text(s.func)}(...) at line {s.lineno} is not inside a try whose handler "
-                    "catches Exception without re-raising: arbitrary bytes can raise out of the receive callback", func=f, node=s)
+        ok, encl = protected(g, s_)
+        ctx.require(ok, f"parse-site:{text(s_.func)}", f"{text(s_.func)}(...) at line {s_.lineno} of {g.short} is not inside a try whose handler "
+                    "catches Exception without re-raising: arbitrary bytes can raise out of the receive callback", func=g, node=s_)
         for t, _ in encl:
             for h in t.handlers:
-                hb = esc._block(h.body, f, (f.qual,))
+                hb = esc._block(h.body, g, (g.qual,))
                 for name, chain in sorted(hb):
                     ctx.violation(f"handler-escape:{name}", f"the parse-failure handler itself can raise {name} via {' > '.join(chain)}",
-                                  func=f, node=h)
+                                  func=g, node=h)
     # (b)
     out = esc.of(f)
     ctx.ok(1, "escape-set-computed")
     seen = set()
     for name, chain in sorted(out):
-        key = f"escape:{name}:{'>'.join(c.split('.')[-1] for c in chain)}"
+        # keyed by the entry point, the function that raises and its immediate caller (helpers extracted in between do not
+        # make it a different finding)
+        names_ = [c.split('.')[-1] for c in chain]
+        key = f"escape:{name}:{'>'.join(names_ if len(names_) <= 3 else [names_[0], '..'] + names_[-2:])}"
         if key in seen:
             continue
         seen.add(key)
@@ -576,7 +608,7 @@ def _scan_models(ctx):
             ("self._write_frame", Outcomes(OK(None), RAISE("NcpFailure")))], rwe
 
 
-@rule("R02.2", ["C02", "C04"], "T-FUN", floor=20)
+@rule("R02.2", ["C02", "C04"], "T-FUN", floor=20, fallback=("R02.5",))
 def r02_2(ctx):
     """One scanner iteration, per first reserved byte, over an abstract buffer B = A ++ r ++ rest (i = len(A)):
     FLAG -> frame A is unstuffed then parsed then delivered, rest kept, empty A ignored; any unstuff/parse failure
@@ -646,7 +678,7 @@ def r02_2(ctx):
                     if parts and isinstance(parts[0].extra, tuple) and len(parts[0].extra) == 3:
                         found = bool(parts[0].extra[1])
                     if found is None:
-                        raise AnalysisError("discard branch does not test for a FLAG in the buffer in a recognised form")
+                        raise FormNotRecognised("discard branch does not test for a FLAG in the buffer in a recognised form")
                     if not found:
                         scen += ",no-flag"
                         cleared = bool(clears and clears[0].callee == "B.clear") or (isinstance(buf, (bytes, bytearray)) and len(buf) == 0)
@@ -673,7 +705,7 @@ def r02_2(ctx):
                     picks = [(t, v) for t, v in p.assumes if t.startswith("member:")]
                     chosen = [(t, v) for t, v in picks if v is not None]
                     if not picks and not any(e.kind == "iterate" for e in p.events):
-                        raise AnalysisError("scanner does not select the first reserved byte in a recognised form (next(...) over the buffer, or a loop over it)")
+                        raise FormNotRecognised("scanner does not select the first reserved byte in a recognised form (next(...) over the buffer, or a loop over it)")
                     if chosen:
                         # the scanner must act on the FIRST byte that turned out to be reserved
                         bt = chosen[0][0].split(":")[1]
@@ -741,7 +773,7 @@ def r02_2(ctx):
                         elif unst or dlv or wr or flag is not False:
                             bad = f"{r} has side effects beyond removing the byte"
             if bad and bad.startswith("UNRECOGNISED"):
-                raise AnalysisError(f"{scen}: buffer edit {buf!r} is not in a recognised form")
+                raise FormNotRecognised(f"{scen}: buffer edit {buf!r} is not in a recognised form")
             if bad:
                 ctx.violation(f"scan:{scen.replace(f'discarding={disc},', '')}", f"{scen}: {bad}", func=f, trace=p.trace(30), construct=scen)
             else:
@@ -792,12 +824,234 @@ def r02_4(ctx):
             ctx.require(p.terminal == "return" and bytes(buf) == want, f"bound({have}+{n})",
                         f"{have} buffered + {n} garbage bytes -> buffer of {len(buf)} bytes (bound {MAX}); must hold the last "
                         f"{len(want)} bytes", func=f)
-    ws = index(repo).writers("_buffer")
-    for g, n, kind in ws:
-        if g.mod != ASH:
-            continue
-        ctx.require(g.short in ("AshProtocol.__init__", "AshProtocol.data_received"), f"_buffer:writer:{g.short}",
-                    f"receive buffer is modified in {g.short} ({kind})", func=g, node=n)
+    # while discarding (a SUBSTITUTE was seen) flag-free garbage is dropped altogether and the mode stays on
+    for n in (1, MAX + 1):
+        new = bytes([0x61 + (i % 5) for i in range(n)])
+        paths = px.explore(f, lambda: (self_obj(cls, {"_buffer": bytearray(b"xy"), "_discarding_until_next_flag": True}), {"data": new}))
+        ctx.case(1)
+        if len(paths) != 1:
+            raise AnalysisError(f"data_received on concrete garbage while discarding: {len(paths)} paths")
+        p = paths[0]
+        buf = p.store["self"].get("_buffer")
+        ctx.require(p.terminal == "return" and isinstance(buf, (bytes, bytearray)) and len(buf) == 0 and p.store["self"].get("_discarding_until_next_flag") is True,
+                    f"discarding-bound({n})", f"{n} garbage bytes while discarding -> buffer {buf!r:.40}, mode {p.store['self'].get('_discarding_until_next_flag')!r}; "
+                    "the bytes must be dropped and the mode kept", func=f)
+    from .ash_link import confined_writers
+
+    confined_writers(ctx, "_buffer", px.visited, {"AshProtocol.__init__"}, "R02.4 (the receive callback and the helpers it is split into)")
+
+
+# ---- reference receiver (UG101 section 4), written independently of the code under analysis
+def ref_parse(body):
+    """Unstuffed frame bytes -> (class name, fields) if the frame is valid per the specification, else None."""
+    if len(body) < 3:
+        return None
+    if spec_crc(body[:-2]) != int.from_bytes(body[-2:], "big"):
+        return None
+    cb, data = body[0], body[1:-2]
+    cn = spec_class(cb)
+    if cn is None:
+        return None
+    if cn == "DataFrame":
+        if len(data) > 256:
+            return None
+        rnd = spec_lfsr(len(data))
+        return cn, {"frm_num": (cb >> 4) & 7, "re_tx": (cb >> 3) & 1, "ack_num": cb & 7, "ezsp_frame": bytes(a ^ b for a, b in zip(data, rnd))}
+    if cn in ("AckFrame", "NakFrame"):
+        return (cn, {"res": (cb >> 4) & 1, "ncp_ready": (cb >> 3) & 1, "ack_num": cb & 7}) if not data else None
+    if cn == "RstFrame":
+        return (cn, {}) if not data else None
+    if len(data) != 2 or data[0] != 2:
+        return None
+    return cn, {"version": 2, "reset_code": data[1]}
+
+
+def ref_receive(stream):
+    """Specification receiver over a byte stream: list of ('frame', class, fields) | ('nak',) in order."""
+    out, buf, discard = [], bytearray(), False
+    for b in stream:
+        if b == 0x7E:
+            if not discard and buf:
+                body, esc, bad = bytearray(), False, False
+                for c in buf:
+                    if esc:
+                        if (c ^ FLIP) not in SPEC_RESERVED:
+                            bad = True
+                            break
+                        body.append(c ^ FLIP)
+                        esc = False
+                    elif c == 0x7D:
+                        esc = True
+                    else:
+                        body.append(c)
+                r = None if bad else ref_parse(bytes(body))
+                out.append(("frame",) + r if r else ("nak",))
+            buf, discard = bytearray(), False
+        elif b == 0x18:
+            buf, discard = bytearray(), True
+        elif b == 0x1A:
+            if not discard:
+                buf = bytearray()
+        elif b in (0x11, 0x13):
+            pass
+        elif not discard:
+            buf.append(b)
+    return out
+
+
+def _streams(ctx):
+    st = lambda body: spec_stuff(spec_with_crc(body))
+    F = b"\x7e"
+    data = st(bytes([0x25]) + bytes(a ^ b for a, b in zip(b"\x7e\x11hello\x7d\x1a", spec_lfsr(10))))  # DATA frm=2 reTx=0 ack=5, reserved-rich payload
+    ack, rstack, error = st(bytes([0x83])), st(bytes([0xC1, 0x02, 0x0B])), st(bytes([0xC2, 0x02, 0x51]))
+    bad_crc = spec_stuff(bytes([0x84, 0x12, 0x34]))
+    bad_esc = bytes([0x83, 0x7D, 0x41, 0x00, 0x00])
+    unknown = st(bytes([0xC5, 0x02, 0x0B]))
+    xon = bytearray(data)
+    for pos in (0, 3, len(xon)):
+        xon.insert(pos, 0x11)
+    xon.insert(5, 0x13)
+    MAX = const(ctx, ASH, "MAX_BUFFER_SIZE", int)
+    garbage = bytes(0x41 + (i % 23) for i in range(MAX + 300))
+    nseq = len(spec_lfsr(0)) + 300  # a DATA field longer than any randomisation sequence the receiver can hold (256 on the pinned tree)
+    oversize = st(bytes([0x25]) + bytes((7 * i) & 0xFF for i in range(nseq)))
+    return {
+        "oversize-data": oversize + F + ack + F,
+        "frame-substitute-frames": data + F + b"ab\x18cd" + F + ack + F + rstack + F,
+        "escape-then-cancel": b"\x83\x7d\x1a" + ack + F,
+        "escape-then-flag": b"\x83\x7d" + F + ack + F,
+        "escape-then-xon": data.replace(b"\x7d", b"\x7d\x11") + F + ack + F,
+        "lone-escape-frame": b"\x7d" + F + ack + F,
+        "two-frames": F + data + F + ack + F,
+        "cancel-then-frames": b"junk\x1a" + rstack + F + data + F,
+        "substitute-mid-frame": data[:5] + b"\x18" + data[5:] + F + ack + F,
+        "rejects-then-good": bad_crc + F + bad_esc + F + b"\x83\x00" + F + unknown + F + ack + F,
+        "xon-xoff-inside": bytes(xon) + F,
+        "empty-frames": F + F + F + ack + F + F,
+        "cancel-inside-discard": b"\x18ab\x1acd" + F + ack + F,
+        "error-then-rstack": error + F + rstack + F,
+        "trailing-escape": ack[:-1] + b"\x7d" + F + ack + F,
+        "overflow-then-frames": garbage + F + rstack + F + data + F,
+    }
+
+
+def _frame_fields(o):
+    out = {}
+    for k, v in o.fields.items():
+        if isinstance(k, str):
+            if isinstance(v, (bytes, bytearray)):
+                out[k] = bytes(v)
+            elif isinstance(getattr(v, "value", v), int):
+                out[k] = int(getattr(v, "value", v))
+            else:
+                raise AnalysisError(f"delivered frame field {k} is not evaluable on concrete input: {v!r:.80}")
+    return out
+
+
+@rule("R02.5", ["C02", "C04"], "T-FUN", floor=60)
+def r02_5(ctx):
+    """Streams and chunkings against a reference receiver written from the specification: curated byte streams covering
+    every reserved-byte situation (back-to-back frames, CANCEL before a frame, SUBSTITUTE inside a frame, bad CRC, invalid
+    escape, short frame, unassigned control byte, XON/XOFF inside a frame, empty frames, CANCEL inside a discarded region,
+    ERROR and RSTACK, a trailing escape, more than MAX_BUFFER_SIZE bytes of garbage followed by good frames) are pushed
+    through data_received on one receiver object, whole and split into two reads at every position (quick tier: a spread
+    of positions; thorough tier: every position and three-way splits of the short streams); the frames handed to
+    frame_received (class and every field) and the NAKs written must be exactly the reference receiver's, whatever the
+    chunking, and nothing may raise."""
+    anchor_attrs(ctx, "AshProtocol", "_buffer", "_discarding_until_next_flag", "_rx_seq")
+    repo = ctx.repo
+    f = repo.func(RECV)
+    ctx.fn(f)
+    cls = ash_cls(ctx)
+    thorough = ctx.run.tier == "thorough"
+    fault = {"mode": None, "calls": 0}
+
+    def upper(px_, t, a, k, fr):
+        fault["calls"] += 1
+        if fault["mode"] == "upper" and fault["calls"] == 1:
+            return Outcomes(RAISE("UpperLayerError"))
+        return Outcomes(OK(None))
+
+    # the NAK goes through the real _write_frame down to the transport (debug logging on and off)
+    px = PX(repo, inline=lambda g, aw: not g.is_async, max_depth=8, max_paths=4,
+            models=[("binascii.crc_hqx", crc_model), ("self.frame_received", upper),
+                    ("self._transport.is_closing", lambda px_, t, a, k, fr: fault["mode"] == "write"),
+                    ("self._transport.write", Outcomes(OK(None))),
+                    ("*.isEnabledFor", lambda px_, t, a, k, fr: fault["mode"] == "debug")])
+    px.inline_root = f
+    streams = _streams(ctx)
+    runs = [(name, stream, None) for name, stream in streams.items()]
+    # fault variants: the upper layer raises while the first frame is handed up (whatever happens to that exception, the
+    # bytes consumed so far stay consumed: the next read must not decode them again); every NAK write fails (dead transport)
+    runs += [("two-frames", streams["two-frames"], "upper"), ("error-then-rstack", streams["error-then-rstack"], "upper"),
+             ("rejects-then-good", streams["rejects-then-good"], "write"), ("rejects-then-good", streams["rejects-then-good"], "debug")]
+    nak_wire = b"\x1a" + spec_stuff(spec_with_crc(bytes([0xA0 | 3]))) + b"\x7e"  # CANCEL + NAK(ackNum 3) + FLAG
+    for name, stream, mode in runs:
+        want = ref_receive(stream)
+        if mode == "write":
+            want = [w for w in want if w != ("nak",)]  # dead transport: nothing can be written, frames are still decoded
+        n = len(stream)
+        if mode:
+            name = f"{name}/{'debug-logging' if mode == 'debug' else mode + '-fails'}"
+        if name.startswith("oversize"):
+            cuts = [(), (n // 2,)]
+        elif n > 200:  # the overflow stream: split inside the garbage, at the bound, and around the frames that follow
+            MAX = const(ctx, ASH, "MAX_BUFFER_SIZE", int)
+            cuts = [(), (1,), (MAX - 1,), (MAX,), (MAX + 1,), (n - 30,), (n - 12,), (n - 1,), (600, MAX + 200), (MAX, n - 20)]
+        elif thorough:
+            cuts = [()] + [(i,) for i in range(1, n)] + ([(i, j) for i in range(1, n) for j in range(i + 1, n)] if n <= 24 else
+                                                         [(i, j) for i in range(1, n, 3) for j in range(i + 1, n, 4)])
+        else:
+            step = max(1, n // 9)
+            cuts = [()] + [(i,) for i in sorted(set(list(range(1, n, step)) + [n - 1, n - 2, 2]))] + [(n // 3, 2 * n // 3)]
+        for cut in cuts:
+            bounds = [0] + [c for c in cut if 0 < c < n] + [n]
+            chunks = [stream[a:b] for a, b in zip(bounds, bounds[1:])]
+
+            def entry():
+                me = self_obj(cls, {"_buffer": bytearray(), "_discarding_until_next_flag": False, "_rx_seq": 3, "_transport": Obj(TypeRef("Transport"), {}, tag="transport"),
+                                    "_pending_data_frames": {i: fut(f"pending{i}") for i in range(8)}})
+                px.top_frame = None
+                fault["mode"], fault["calls"] = mode, 0
+                for ch in chunks + ([b""] if mode == "upper" else []):
+                    try:
+                        px.call_function(f, me, [bytes(ch)], {}, None)
+                    except Exc as ex:
+                        if not (mode == "upper" and ex.cls_name == "UpperLayerError"):
+                            raise
+                return None
+
+            paths = px._run(entry)
+            ctx.case(1)
+            if len(paths) != 1:
+                raise AnalysisError(f"data_received on the concrete stream '{name}' split at {cut}: {len(paths)} paths")
+            p = paths[0]
+            got = []
+            for e in p.events:
+                if e.kind == "call" and e.what == "self.frame_received" and e.args and isinstance(e.args[0], Obj):
+                    got.append(("frame", e.args[0].cls_name, _frame_fields(e.args[0])))
+                elif e.kind == "call" and e.what == "self.frame_received":
+                    raise AnalysisError(f"stream '{name}': delivered frame is not evaluable: {e.args!r:.80}")
+                elif e.kind == "call" and e.what == "self._transport.write":
+                    w = e.args[0] if e.args else None
+                    got.append(("nak",) if isinstance(w, (bytes, bytearray)) and bytes(w) == nak_wire else
+                               ("write", bytes(w).hex() if isinstance(w, (bytes, bytearray)) else repr(w)[:60]))
+            key = f"stream:{name}"
+            settled = [e for e in p.events if e.kind == "call" and e.callee and e.callee.startswith("pending") and
+                       e.callee.split(".")[-1] in ("set_result", "set_exception", "cancel")]
+            if settled:
+                ctx.violation(key + ":ack", f"stream '{name}' split at {list(cut)}: the byte scanner itself settles a pending send ({settled[0].brief()}); acknowledgement "
+                              "information may be taken only from frames that passed validation (frame_received)", func=f, trace=p.trace(30), construct=name)
+            elif p.terminal != "return":
+                ctx.violation(key, f"stream '{name}' split at {list(cut)}: {p.value!r} escapes the receive callback", func=f, trace=p.trace(30), construct=name)
+            elif got != want:
+                i = next((k for k, (a, b) in enumerate(zip(got, want)) if a != b), min(len(got), len(want)))
+                ctx.violation(key, f"stream '{name}' split into reads at {list(cut)}: event #{i} is {got[i] if i < len(got) else 'missing'!r:.160}, the reference "
+                              f"receiver gives {want[i] if i < len(want) else 'nothing more'!r:.160} ({len(got)} events vs {len(want)})", func=f,
+                              trace=p.trace(30), construct=name)
+            else:
+                ctx.ok(1, (name, cut))
+    ctx.sample({"streams": {k: v.hex() if len(v) < 80 else f"{len(v)} bytes" for k, v in _streams(ctx).items()}})
 
 
 @rule("R03.9", ["C03", "C10", "C11", "C04", "C02"], "T-FUN", floor=512)
